@@ -140,6 +140,10 @@ def _solve_one(i):
     ob = _OBS[i]
     timeout_ms = _CFG.get("timeout_ms", 20000)
     t0 = time.time()
+    if getattr(ob, "forced", None):   # verdict of an abstract interpretation that could not decide (possible, not definite)
+        return (i, ob.forced, 0.0, "alias-ai", {"unsat": "no effect outside the frame in the may-alias abstraction",
+                                                "sat": "a definite in-place write outside the frame",
+                                                "unknown": "possible effect through an unmodelled call or an unknown value"}[ob.forced], None)
     s = z3.Solver()
     first = min(timeout_ms, 3000) if (ob.expect_sat or _CFG.get("cvc5", True)) else timeout_ms
     s.set("timeout", first)
